@@ -359,7 +359,16 @@ def _tail_start(body):
         # at the start of a statement / expression
         m = re.compile(r'(for|while|loop|proof)\b').match(body, i)
         j = i
-        is_loop = bool(m)
+        is_loop = bool(m) or body[i] == '{'
+        if body[i] == '{':
+            # a block statement (e.g. an unrolled loop iteration) ends at its closing brace -- unless it is the tail
+            jj = s.match_close(i)
+            rest = body[jj + 1:end].strip()
+            if not rest:
+                return i
+            last = jj + 1
+            i = jj + 1
+            continue
         while j < end:
             if s.mask[j]:
                 c = body[j]
